@@ -23,6 +23,7 @@ import (
 	"context"
 	"io"
 	"net"
+	"sync"
 	"time"
 
 	"github.com/iDigitalFlame/xmt/c2/cfg"
@@ -47,6 +48,7 @@ type Listener struct {
 	ch     chan struct{}
 	cancel context.CancelFunc
 	name   string
+	lock   sync.Mutex
 	state  state
 }
 
@@ -249,6 +251,10 @@ func (l *Listener) Replace(addr string, p cfg.Profile) error {
 	if len(h) == 0 {
 		return ErrNoHost
 	}
+	// One Replace at a time: the socket is swapped in several steps that the
+	// accept thread follows through the Replacing flag.
+	l.lock.Lock()
+	defer l.lock.Unlock()
 	// The socket is nil after a Replace that could not bind (the Listener is closed
 	// then, the bind below fails on its canceled context).
 	if l.state.Set(stateReplacing); l.listener != nil {
